@@ -6,6 +6,7 @@
    chunk count as the Go code computes it, proved equal to ceil(n/c) in C17_roundtrip. *)
 From Coq Require Import NArith ZArith List.
 From M Require Import gen.Consts base.Bits64 model.LowEntropy proofs.Bits64Proofs proofs.Bits64LoopProofs proofs.Bits64IntelProofs proofs.LowEntropyProofs proofs.LowEntropyWireProofs.
+From M Require Import base.MiniGo gen.Translated proofs.TranslatedMathextProofs.
 From M Require model.Wire.
 Import ListNotations.
 Open Scope N_scope.
@@ -28,6 +29,24 @@ Print Assumptions C17_pdep_go_eq_spec.
 Theorem C17_pext_go_eq_spec : forall x mask, mask < W64 -> pext_go x mask = pext x mask.
 Proof. exact pext_go_eq_spec. Qed.
 Print Assumptions C17_pext_go_eq_spec.
+
+(* the SOURCE of pdepGeneric / pextGeneric / RepeatUint32 as it is now (gen/Translated.v: translated from pkg/mathext/bit.go
+   by harness/cmd/go2coq on every run, semantics of base/MiniGo.v; uint64 values are Z in [0, 2^64)) computes the
+   Intel PDEP / PEXT for every x and every 64-bit mask, within 65 units of loop fuel, and the doubled half mask *)
+Theorem C17_source_pdep_eq_spec : forall x mask : N, mask < W64 ->
+  xl_mathext_pdepGeneric (Z.of_N x) (Z.of_N mask) = Some (Z.of_N (pdep x mask)).
+Proof. exact xl_pdepGeneric_eq_spec. Qed.
+Print Assumptions C17_source_pdep_eq_spec.
+
+Theorem C17_source_pext_eq_spec : forall x mask : N, mask < W64 ->
+  xl_mathext_pextGeneric (Z.of_N x) (Z.of_N mask) = Some (Z.of_N (pext x mask)).
+Proof. exact xl_pextGeneric_eq_spec. Qed.
+Print Assumptions C17_source_pext_eq_spec.
+
+Theorem C17_source_repeat32 : forall v : N, v < 2 ^ 32 ->
+  xl_mathext_RepeatUint32 (Z.of_N v) = Z.of_N (repeat32 v).
+Proof. exact xl_RepeatUint32_eq_model. Qed.
+Print Assumptions C17_source_repeat32.
 
 (* the position-by-position rendering of the Intel SDM pseudo code (bit index m, counter k; base/Bits64.v
    pdep_intel / pext_intel) equals the structural definition: for every operand width n on the mask's low n bits,
